@@ -46,6 +46,9 @@ var condOpts = []condOptDef{
 
 const roBit = 128
 
+// a text far beyond any small-buffer regime (3 000 bytes, multi-byte runes included)
+var c18LongText = strings.Repeat("long-текст-長い-", 120)
+
 // applyMode: 0 set(true), 1 clear(false), 2 toggle()
 func modelOpt(bits uint16, bit uint16, mode int) uint16 {
 	if bits&roBit != 0 && bit != roBit {
@@ -367,7 +370,7 @@ func c18Random(c *core.Ctx, idx int) {
 			bits = modelOpt(bits, o.Bit, mode)
 			log = append(log, fmt.Sprintf("Set%s(%s)", o.Name, modeName(mode)))
 		case 2:
-			arg := []string{"myid", "_random", "_RANDOM", "_addr", "", "x y"}[r.Intn(6)]
+			arg := []string{"myid", "_random", "_RANDOM", "_addr", "", "x y", c18LongText, "ид-日本-𝛼", "( AND ) , = \"q\"", "_Random ", "_ADDR", " _addr"}[r.Intn(12)]
 			s.SetID(arg)
 			log = append(log, fmt.Sprintf("SetID(%q)", arg))
 			if !ro {
@@ -386,7 +389,7 @@ func c18Random(c *core.Ctx, idx int) {
 				}
 			}
 		case 3:
-			arg := []string{"cat1", "", "Ünï"}[r.Intn(3)]
+			arg := []string{"cat1", "", "Ünï", c18LongText, "a,b ( c ) AND", "\t"}[r.Intn(6)]
 			s.SetCategory(arg)
 			log = append(log, fmt.Sprintf("SetCategory(%q)", arg))
 			if !ro {
@@ -714,7 +717,7 @@ func c18RandomCond(c *core.Ctx, idx int) {
 				}
 			}
 		case 3:
-			arg := []string{"c1", ""}[r.Intn(2)]
+			arg := []string{"c1", "", c18LongText, "кат-類", "= ( ) \""}[r.Intn(5)]
 			cd.SetCategory(arg)
 			log = append(log, fmt.Sprintf("SetCategory(%q)", arg))
 			if !ro {
